@@ -416,6 +416,7 @@ def cases(tier):
 
     ns = env.boot()
     out = list(rw_cases(tier))
+    out.append(("decision", 0, 0, 0, tier))
     k = 2 if tier == "quick" else 3
     for name in SCENARIOS:
         plans, totals = cut_plans(name, k if len(SCENARIOS[name][1]) < 6 or tier == "thorough" else k, ns)
@@ -491,11 +492,51 @@ def judge(name, cuts, order, announced, result, errors, viol, cid):
         viol.append({"case": cid, "clause": "no-stray-exceptions", "sig": sig, "detail": repr(errors[:2])})
 
 
+def run_decision(case):
+    """config.py should_run_notifier over a grid of configurations: whenever the configuration starts several gunicorn workers (they share
+    the database) or asks for the notifier explicitly, the storage must be told to announce accepted events.  Nothing is required of the
+    other configurations."""
+    import itertools
+    from .. import env
+
+    ns = env.boot()
+    cls = type(ns.Config)
+    viol = []
+    n = 0
+    outcomes = set()
+    gun = [{"bind": "127.0.0.1:6969"}, {"bind": "127.0.0.1:6969", "workers": 1}, {"bind": "127.0.0.1:6969", "workers": 2}, {"bind": "127.0.0.1:6969", "workers": 4}]
+    purple = [Ellipsis, None, {}, {"host": "127.0.0.1", "port": 6969}, {"host": "127.0.0.1", "port": 6969, "workers": 1}, {"host": "127.0.0.1", "port": 6969, "workers": 3}]
+    runn = [Ellipsis, None, False, True]
+    for g, p, r in itertools.product(gun, purple, runn):
+        cfg = cls()
+        cfg.gunicorn = dict(g)
+        if p is not Ellipsis:
+            cfg.purple = None if p is None else dict(p)
+        if r is not Ellipsis:
+            cfg.run_notifier = r
+        must = g.get("workers", 1) > 1 or r is True
+        try:
+            got = bool(cfg.should_run_notifier)
+        except Exception as e:
+            got = "%s: %s" % (type(e).__name__, e)
+        n += 1
+        outcomes.add(repr((must, got)))
+        if must and got is not True:
+            viol.append({"case": "decision", "clause": "announce-when-several-workers", "sig": repr((g.get("workers"), p if p is not Ellipsis else "absent", r if r is not Ellipsis else "absent")),
+                         "detail": "gunicorn=%r purple=%r run_notifier=%r: several workers share the database (or the notifier is asked for) but should_run_notifier is %r, so accepted events are never announced to the other workers" % (
+                             g, "absent" if p is Ellipsis else p, "absent" if r is Ellipsis else r, got)})
+    return {"id": "decision", "viol": viol, "outcome": sorted(outcomes), "outcome_is_set": True, "evals": n, "states": n, "transitions": n,
+            "nontrivial": True, "desc": describe(case), "extra": {"executions": n},
+            "sample": {"scenario": "decision", "configurations": n, "distinct_outcomes": len(outcomes)}}
+
+
 def run_case(case):
     from .. import env
 
     if case[0] == "rw":
         return run_rw(case, _TIER.get("tier", "quick"))
+    if case[0] == "decision":
+        return run_decision(case)
     name, k, lo, hi, tier = case
     ns = env.boot()
     viol = []
